@@ -70,18 +70,22 @@ struct Shared {
 pub fn run_case(ctx: &Ctx, rep: &mut Report, case_seed: u64, variant: u64) {
 	let class = (variant % 8) as usize;
 	let backlog = class == 7;
-	let always_flush = !backlog && (variant / 16) % 2 == 0;
+	// log syncs fail while the commit stage lags behind the flush stage (every enacted action is
+	// slowed down): a log file that was handed over for enactment must have been synced
+	let enact_lag = class == 3 && (variant / 8) % 2 == 1;
+	let always_flush = enact_lag || (!backlog && (variant / 16) % 2 == 0);
 	let growth = !backlog && (variant / 32) % 2 == 1;
 	let drop_with_fault = (variant / 64) % 2 == 1;
 	let desc = format!(
-		"C16 threaded case_seed={} variant={} failing_calls={} always_flush={} index_growth={} drop_with_fault={}",
-		case_seed, variant, CLASS_SETS[class].0, always_flush, growth, drop_with_fault
+		"C16 threaded case_seed={} variant={} failing_calls={}{} always_flush={} index_growth={} drop_with_fault={}",
+		case_seed, variant, CLASS_SETS[class].0, if enact_lag { "+enact_lag" } else { "" }, always_flush, growth, drop_with_fault
 	);
 	ctx.mark(&desc);
 	ctx.progress();
 	let _ = take_all_panics();
 	let r = catch(|| scenario(ctx, rep, case_seed, variant, class, always_flush, growth, drop_with_fault, &desc));
 	let _ = backlog;
+	inject::trace_r1(false);
 	inject::stop();
 	delays::uninstall();
 	let replay = J::obj().set("case", J::s(desc.clone())).set("case_seed", J::i(case_seed)).set("variant", J::i(variant));
@@ -189,6 +193,17 @@ fn scenario(ctx: &Ctx, rep: &mut Report, case_seed: u64, variant: u64, class: us
 		delays::install(case_seed, rng.range(20, 200), rng.range(100, 1500), u64::MAX);
 	}
 	inject::start(&dbdir, CLASS_SETS[class].1);
+	// rule R1 of C12 stays in force when a file operation fails: a log file whose sync FAILED
+	// still has unsynced bytes and must never be read for enactment ("no table byte is modified
+	// on behalf of a record before the log bytes of that record were synced")
+	inject::trace_r1(true);
+	if class == 3 && (variant / 8) % 2 == 1 {
+		// enact lag: only log files are failed, the commit stage sleeps before every action it applies
+		inject::only_logs(true);
+		delays::install(case_seed, 0, 0, 0);
+		delays::slow_site(7, rng.range(300, 4000));
+		rep.count("sync_failures_under_enact_lag", 1);
+	}
 	if backlog {
 		// the cleanup stage is slow (stands for a long msync of the tables): several enacted log
 		// files pile up behind it; then its truncation of the first one fails
@@ -431,9 +446,20 @@ fn scenario(ctx: &Ctx, rep: &mut Report, case_seed: u64, variant: u64, class: us
 	drop(db);
 	ctx.progress();
 	let delivered_total = inject::delivered();
+	inject::trace_r1(false);
 	inject::stop();
 	delays::uninstall();
 	rep.count("drops_completed", 1);
+	rep.count("r1_checks_under_faults", inject::R1_CHECKS.load(std::sync::atomic::Ordering::SeqCst));
+	let rules = inject::take_rule_violations();
+	if let Some(r) = rules.first() {
+		rep.violation(
+			"scenario=C16;mode=threaded;failure=sync_order_rule;rule=R1".to_string(),
+			format!("{} (failing class {}, {} call(s) failed; a record whose log bytes never reached the disk was applied to the tables: after a power loss the tables would hold it without its log) :: {}", r, CLASS_SETS[class].0, delivered_total, desc),
+			replay,
+		);
+		return
+	}
 	if delivered_total > delivered_live {
 		rep.count("faults_delivered_during_drop", 1);
 	}
